@@ -53,6 +53,29 @@ CLAIMS = {
              "fitness enumerates the same layers. Not decided: laws of multi-objective layers, (x+y)-y == x numerically, sign of zero.",
         note="A lexicographic extension of a total order with fixed padding is a total order; f64::total_cmp is total (trusted).",
         ref="DESIGN.md §5 C09"),
+    "C10": dict(
+        technique="MIR edge-dominance (validate-first), call-graph reachability of rule functions, code/docs table cross-check, dropped-Result def-use scan",
+        text="Structural clauses: validate()? dominates every reader call in map_to_problem; every validation rule function (by return type) is reachable "
+             "from ValidationContext::validate and module validators aggregate with combine_error_results; the code literal of each check_eNNNN equals its "
+             "name and the set of codes in the code equals the documented headings; no Result in validation is dropped. Not decided: that each predicate "
+             "matches its documentation, exactness of codes == violated rules, input-derived panics in readers for fields no rule covers.",
+        note="Docs headings are taken as the rule table; reader panics on unvalidated fields are listed in DESIGN.md as observations, not decided.",
+        ref="DESIGN.md §5 C10"),
+    "C12": dict(
+        technique="call-graph reachability of checker rules, breach-class table, dropped-Result scan, constant-feasible CFG reachability of error sites",
+        text="Nothing silently unchecked: every checker rule function is reachable from CheckerContext::check, each documented breach class maps to a wired "
+             "leaf rule, groups aggregate all results, no Result in checker code is dropped, every leaf rule keeps reachable error-producing sites. "
+             "Not decided: acceptance of all valid solutions, rejection power per breach (value-level predicates).",
+        note="Breach-class table is module level with one row per documented class.",
+        ref="DESIGN.md §5 C12"),
+    "C13": dict(
+        technique="record-field liveness / source-distinctness def-use analysis, generic-argument agreement, flag evaluation, lost-slot-write move analysis",
+        text="Faithfulness clauses: every parsed record field / builder parameter is consumed and filled from a distinct parsed position; demand, capacity "
+             "and capacity feature share one load type; essential features contain capacity and transport with time windows enforced for Solomon/Li&Lim; "
+             "the rounding flag selects exactly between rounded and raw Euclidean distance; written Dimensions are never dropped. Not decided: numeric "
+             "equality of parsed values, Li&Lim pairing, initial-solution round trip.",
+        note="One genuine defect repaired (Li&Lim dimensions dropped, fix: 9670129).",
+        ref="DESIGN.md §5 C13"),
     "C14": dict(
         technique="field privacy + paired-mutation must-pass analysis + workspace-wide field-store scan + type-level independence argument",
         text="Encapsulation and pairing: representation fields private; every Tour method that structurally mutates `activities` mutates `jobs` on every "
